@@ -228,7 +228,9 @@ PROPS["C12"] = dict(
 PROPS["C11"] = dict(
     targets=[dict(name="C11views", src="vp/props/C11.cpp", defs=["VP_C11_PROGRAM=1"], maxlen=13 + 4*10),
              dict(name="C11iters", src="vp/props/C11.cpp", defs=["VP_C11_PROGRAM=2"], maxlen=13 + 4*10),
-             dict(name="C11containers", src="vp/props/C11m.cpp", maxlen=2 + 8*10)],
+             dict(name="C11containers", src="vp/props/C11m.cpp", maxlen=2 + 8*10),
+             dict(name="C11assign", src="vp/props/C11.cpp", defs=["VP_C11_PROGRAM=3"], maxlen=13 + 4*10),
+             dict(name="C11compare", src="vp/props/C11.cpp", defs=["VP_C11_PROGRAM=4"], maxlen=13 + 4*10)],
     quick=dict(cases=1500, floor=12000),
     thorough=dict(cases=30000, floor=200000, fuzz=dict(time=240)),
     level="exploration",
